@@ -122,6 +122,9 @@ type Case struct {
 	Masks      []uint32 `json:"masks"` // extra truth assignments of the leaves
 	MutIdx     int      `json:"mut"`   // the query whose times are rewritten in the independence check
 	ReplayPath bool     `json:"replaypath,omitempty"`
+	// ZoneOff: the server's local zone, seconds east of UTC (cron expressions are matched against
+	// local wall-clock fields by the live ticker and must be by the historical list as well)
+	ZoneOff int `json:"zone_off,omitempty"`
 }
 
 const rule = "rapid: InfluxQL SELECT (fields x sources x WHERE tree depth<=4 over AND/OR/parens, tag/field/arith/regex comparisons, user time predicates) x " +
@@ -144,7 +147,9 @@ func truncNs(t, d int64) int64 {
 func refTicks(c Case) []int64 {
 	var out []int64
 	if c.Cron != nil {
-		m, r := c.Cron.M*1e9, c.Cron.R*1e9
+		m := c.Cron.M * 1e9
+		// local wall-clock seconds t+off with (t+off) % M == R
+		r := ((c.Cron.R-int64(c.ZoneOff))%c.Cron.M + c.Cron.M) % c.Cron.M * 1e9
 		t := (c.StartNs-r)/m*m + r
 		for t <= c.StartNs {
 			t += m
@@ -426,6 +431,7 @@ func gen(rec *kit.Rec) func(t *rapid.T) Case {
 		// ---- schedule
 		if wpick(t, "sched", 3, 1) == 1 {
 			c.Cron = genCron(t)
+			c.ZoneOff = rapid.SampledFrom([]int{0, 0, 19800, -12600, 3600, -28800, 45900}).Draw(t, "zone")
 		} else {
 			c.Every = genDur(t, "every", []string{"ms", "s", "s", "m", "h", "u"})
 			c.Align = rapid.Bool().Draw(t, "align")
@@ -847,6 +853,12 @@ func depthOf(n *Node) int {
 }
 
 func run(c Case, cc *kit.Case) {
+	if c.ZoneOff != 0 {
+		// the process-wide local zone, as TZ sets it for the daemon (cases run one at a time)
+		time.Local = time.FixedZone("local", c.ZoneOff)
+		defer func() { time.Local = time.UTC }()
+		cc.Label("local-zone-not-utc")
+	}
 	script := c.script()
 	userQ := c.userQuery()
 	userSel, err := parseSelect(userQ)
@@ -1359,7 +1371,7 @@ func isoList(ts []int64) string {
 var assumptions = []string{
 	"a WHERE clause is read the way InfluxQL reads it (influxql.ConditionExpr, trusted base): time comparisons anywhere in the tree are promoted to one time range and removed from the condition; the strict boolean reading of the emitted text is reported as a label only",
 	"ticks of a span are those in (start, stop]: the first tick of every() is start+every; under align() the ticks are the multiples of every (Go time.Truncate grid) after start, as a live task started at 'start' produces them",
-	"cron schedules are limited to a family whose occurrences are t % M == R in unix seconds (UTC; the process runs with TZ=UTC)",
+	"cron schedules are limited to a family whose occurrences are (t + zone offset) % M == R in unix seconds; the process's local zone is UTC or a generated fixed-offset zone (time.Local is set per case; no daylight-saving transitions)",
 	"GROUP BY is written in .groupBy() and fill in .fill() (pipeline/batch.go: the query text must not contain a GROUP BY clause); sub-queries are not generated (BatchQueries rejects them: their db/rp cannot be determined)",
 	"alignGroup(): the emitted group-by offset must make the interval boundaries coincide with the query's start time; with a user offset both 'aligned' and 'aligned plus the user offset' are accepted",
 	"a source that is not fully qualified (\"db\"..\"m\", m) may be accepted or rejected; a fully qualified source must be one of the declared (db, rp) pairs, compared exactly",
